@@ -251,8 +251,12 @@ package godi
 //@   ensures[C01,C04] instance_values_never_invoke: descriptor != nil && descriptor.IsInstance ==> ncalls("reflection.ConstructorInvoker.Invoke") == 0 && ncalls("reflection.Analyzer.Analyze") == 0
 //@   ensures[C04] analyzes_registered_constructor: ncalls("reflection.Analyzer.Analyze") == 1 ==> callarg("reflection.Analyzer.Analyze", 0, 1) == ext("(reflect.Value).Interface", "any", descriptor.Constructor)
 //@        && callarg("reflection.Analyzer.Analyze", 0, 0) == s.rootProvider.analyzer
-//@   ensures[C04,C18] invokes_analyzed_info_in_this_scope: ncalls("reflection.ConstructorInvoker.Invoke") == 1 ==> ncalls("reflection.Analyzer.Analyze") == 1
-//@        && callarg("reflection.ConstructorInvoker.Invoke", 0, 1) == callret("reflection.Analyzer.Analyze", 0, 0) && callarg("reflection.ConstructorInvoker.Invoke", 0, 2) == box(s)
+//@   ensures[C04,C18] invokes_in_this_scope_after_analysis: ncalls("reflection.ConstructorInvoker.Invoke") == 1 ==> ncalls("reflection.Analyzer.Analyze") == 1
+//@        && callret("reflection.Analyzer.Analyze", 0, 1) == nil && callarg("reflection.ConstructorInvoker.Invoke", 0, 2) == box(s)
+//@   ensures[C04] invokes_the_registered_constructor_value: ncalls("reflection.ConstructorInvoker.Invoke") == 1 && callarg("reflection.ConstructorInvoker.Invoke", 0, 1, "*reflection.ConstructorInfo").IsFunc ==>
+//@        callarg("reflection.ConstructorInvoker.Invoke", 0, 1, "*reflection.ConstructorInfo").Value == descriptor.Constructor
+//@   ensures[C04] invokes_with_the_analysed_signature: ncalls("reflection.ConstructorInvoker.Invoke") == 1 ==>
+//@        callarg("reflection.ConstructorInvoker.Invoke", 0, 1, "*reflection.ConstructorInfo").Type == ext("reflect.TypeOf", "reflect.Type", ext("(reflect.Value).Interface", "any", descriptor.Constructor))
 //@   ensures[C15,C10] failed_invoke_stores_nothing: ncalls("reflection.ConstructorInvoker.Invoke") == 1 && callret("reflection.ConstructorInvoker.Invoke", 0, 1) != nil ==>
 //@        ncalls("scope.setInstance") == 0 && result0 == nil && result1 != nil
 //@   ensures[C15] failed_analysis_stores_nothing: ncalls("reflection.Analyzer.Analyze") == 1 && callret("reflection.Analyzer.Analyze", 0, 1) != nil ==>
